@@ -79,6 +79,11 @@ def handle (prop : String) (line : String) : String :=
       | "masku" => opMasku args res
       | "pair" => opPair args res
       | "select" => opSelect args res
+      | "selecth" =>
+        -- the second build of a reused builder whose level was changed: same verdict as a fresh build
+        (match args with
+         | [hx, _e0, e, md, v] => opSelect [hx, e, md, v, "-"] res
+         | _ => { spec := some "bad-args" })
       | "term" => opTerm args res
       | "svg" => opSvg prop args res
       | "wasm" => opWasm args res
